@@ -147,8 +147,11 @@ class Script:
         return self.problems
 
 
-def call_owned(ctx, site, script, fn, block):
-    """Run fn() with every draw owned.  Returns the output or None (a violation was reported)."""
+def call_owned(ctx, site, script, fn, block, mini=None):
+    """Run fn() with every draw owned.  Returns the output or None (a violation was reported).
+    ``mini``: smaller block that still makes the same requests (one leaf of the tree)."""
+    if mini is not None:
+        block = mini
     try:
         with OwnedRNG(script.answers()):
             out = fn()
@@ -261,6 +264,22 @@ def compare_levels(out, tree, anc, value_of, tol_of, skip_root=False):
     return first, worst
 
 
+def note_margin(ctx, site, worst):
+    """Histogram of max(|error| / tolerance) per conforming block (counters add up across workers)."""
+    for b in (0.01, 0.1, 0.5, 1.0):
+        if worst <= b:
+            ctx.add(f"blocks with err/tol <= {b}: {site}", 1)
+            return
+
+
+def _one_leaf(block):
+    """A block of the same configuration restricted to the first leaf / first rows (for replays of
+    request-level violations, which do not depend on the answers)."""
+    if "n_steps" in block:            # rough Bergomi impulse rows
+        return block if block.get("rows") is not None else dict(block, rows=[1])
+    return block if block.get("leaves") is not None else dict(block, leaves=[0])
+
+
 def leaf_block(block, anc, row):
     b = {k: v for k, v in block.items() if k != "leaves"}
     b["leaves"] = [int(anc[-1][row])]
@@ -287,14 +306,20 @@ def law_check(ctx, site, cls, got, want, rtol, block, msg, atol=0):
 
 def node_moments(tree, t, j, f):
     """Weighted moments of f(child state) over the children of node j at level t:
-    returns (sum w, sum w f, sum w f^2)."""
+    returns (sum w, mean, central second moment).  The variance is accumulated around the mean:
+    the float quadrature weights are accurate to ~1e-16 *relative*, so a raw second moment of a
+    state far from 0 would carry 1e-16 x^2 - not small against a variance of 1e-5."""
     first, n = tree.kids[t][j]
-    s0 = s1 = s2 = mpf(0)
-    for c in range(first, first + n):
-        w = tree.w[t + 1][c]
-        x = f(tree.state[t + 1][c])
-        s0 += w; s1 += w * x; s2 += w * x * x
-    return s0, s1, s2
+    ws = tree.w[t + 1][first:first + n]
+    xs = [f(s) for s in tree.state[t + 1][first:first + n]]
+    return weighted_moments(ws, xs)
+
+
+def weighted_moments(ws, xs):
+    s0 = sum(ws)
+    mean = sum(w * x for w, x in zip(ws, xs)) / s0
+    var = sum(w * (x - mean) ** 2 for w, x in zip(ws, xs)) / s0
+    return s0, mean, var
 
 
 def make_init(kind, values, dtype_name):
@@ -359,7 +384,7 @@ def bm_tree(ctx, block):
 
     if via == "instrument":
         site = "BrownianStock.simulate"
-    out = call_owned(ctx, site, script, call, block)
+    out = call_owned(ctx, site, script, call, block, mini=_one_leaf(block))
     ctx.add("states", tree.n_nodes()); ctx.add("transitions", tree.n_nodes() - 1)
     ctx.add("traces_validated_against_impl", L)
     ctx.tick(tree.n_nodes() if leaves is None else (k + 1), nontrivial=(tree.n_nodes() - 1) if leaves is None else k)
@@ -382,7 +407,7 @@ def bm_tree(ctx, block):
         rt = 8 * eps * (k + 2) * (1 + E)
         tol_of = lambda t, j, s: rt * abs(float(s))
     first, worst = compare_levels(out, tree, anc, lambda s: s, tol_of)
-    ctx.info["max_err_over_tol:" + site] = max(ctx.info.get("max_err_over_tol:" + site, 0.0), round(worst, 4))
+    note_margin(ctx, site, worst)
     ctx.outcome((site, round(float(out.sum()), 9)))
     if first is not None:
         t, i, obs, exp, tol = first
@@ -399,24 +424,23 @@ def bm_tree(ctx, block):
             if gen == "brownian":
                 s0_, s1_, s2_ = node_moments(tree, t, j, lambda x: x)
                 law_check(ctx, site, "step_mean", s1_, st + mum * dtm, LAW_RTOL, block, "E[X(t+dt)|X(t)]", atol=LAW_RTOL * sgm)
-                law_check(ctx, site, "step_variance", s2_ - s1_ ** 2, sgm ** 2 * dtm, LAW_RTOL, block, "Var[X(t+dt)|X(t)]")
+                law_check(ctx, site, "step_variance", s2_, sgm ** 2 * dtm, LAW_RTOL, block, "Var[X(t+dt)|X(t)]")
             else:
                 s0_, s1_, s2_ = node_moments(tree, t, j, lambda x: x)
                 law_check(ctx, site, "step_mean", s1_, st * mp.exp(mum * dtm), LAW_RTOL + 2 * trunc, block, "E[S(t+dt)|S(t)]")
                 l0, l1, l2 = node_moments(tree, t, j, mp.log)
-                law_check(ctx, site, "step_logvariance", l2 - l1 ** 2, sgm ** 2 * dtm, LAW_RTOL, block, "Var[ln S(t+dt)|S(t)]")
+                law_check(ctx, site, "step_logvariance", l2, sgm ** 2 * dtm, LAW_RTOL, block, "Var[ln S(t+dt)|S(t)]")
     P = tree.path_prob()
     for t in range(1, k + 1):
         f = (lambda x: x) if gen == "brownian" else mp.log
-        m1 = sum(p * s for p, s in zip(P[t], tree.state[t]))
-        g1 = sum(p * f(s) for p, s in zip(P[t], tree.state[t]))
-        g2 = sum(p * f(s) ** 2 for p, s in zip(P[t], tree.state[t]))
+        _, m1, _ = weighted_moments(P[t], tree.state[t])
+        _, g1, gv = weighted_moments(P[t], [f(s) for s in tree.state[t]])
         if gen == "brownian":
             law_check(ctx, site, "mean", m1, root + mum * t * dtm, LAW_RTOL, block, f"E[X({t}dt)]", atol=LAW_RTOL * sgm)
-            law_check(ctx, site, "variance", g2 - g1 ** 2, sgm ** 2 * t * dtm, LAW_RTOL, block, f"Var[X({t}dt)]")
+            law_check(ctx, site, "variance", gv, sgm ** 2 * t * dtm, LAW_RTOL, block, f"Var[X({t}dt)]")
         else:
             law_check(ctx, site, "mean", m1, R.gbm_mean(root, mu, t * dtm), LAW_RTOL + 2 * t * trunc, block, f"E[S({t}dt)] = S0 e^(mu t)")
-            law_check(ctx, site, "logvariance", g2 - g1 ** 2, R.gbm_logvar(sigma, t * dtm), LAW_RTOL, block, f"Var[ln S({t}dt)] = sigma^2 t")
+            law_check(ctx, site, "logvariance", gv, R.gbm_logvar(sigma, t * dtm), LAW_RTOL, block, f"Var[ln S({t}dt)] = sigma^2 t")
     if len(ctx.samples) < 1:
         i = L // 3
         ctx.sample({"family": "bm_tree", "block": block, "leaf": i, "answers_z": Z[i, 1:].tolist(),
@@ -482,7 +506,7 @@ def vasicek_tree(ctx, block):
 
     if via == "instrument":
         site = "VasicekRate.simulate"
-    out = call_owned(ctx, site, script, call, block)
+    out = call_owned(ctx, site, script, call, block, mini=_one_leaf(block))
     ctx.add("states", tree.n_nodes()); ctx.add("transitions", tree.n_nodes() - 1)
     ctx.add("traces_validated_against_impl", L)
     ctx.tick(tree.n_nodes() if leaves is None else k + 1, nontrivial=(tree.n_nodes() - 1) if leaves is None else k)
@@ -511,7 +535,7 @@ def vasicek_tree(ctx, block):
                       f"x0={x0}, kappa={block['kappa']}, theta={block['theta']}, sigma={block['sigma']}, dt={block['dt']}, {dn}, "
                       f"params as {block.get('params_as', 'float')})", observed=obs, expected=exp, block=leaf_block(block, anc, i))
     else:
-        ctx.info["max_err_over_tol:" + site] = max(ctx.info.get("max_err_over_tol:" + site, 0.0), round(worst, 4))
+        note_margin(ctx, site, worst)
     if leaves is not None or _eff(dn) != torch.float64:
         return
     ka, th_, sg, dtm = (mpf(block[nm]) for nm in names)
@@ -519,15 +543,14 @@ def vasicek_tree(ctx, block):
         for j, st in enumerate(tree.state[t]):
             s0_, s1_, s2_ = node_moments(tree, t, j, lambda x: x)
             law_check(ctx, site, "step_mean", s1_, R.ou_mean(st, ka, th_, dtm), LAW_RTOL, block, "E[X(t+dt)|X(t)]", atol=LAW_RTOL * sg)
-            law_check(ctx, site, "step_variance", s2_ - s1_ ** 2, R.ou_var(ka, sg, dtm), LAW_RTOL, block, "Var[X(t+dt)|X(t)]")
+            law_check(ctx, site, "step_variance", s2_, R.ou_var(ka, sg, dtm), LAW_RTOL, block, "Var[X(t+dt)|X(t)]")
     P = tree.path_prob()
     root = tree.state[0][0]
     for t in range(1, k + 1):
-        m1 = sum(p * s for p, s in zip(P[t], tree.state[t]))
-        m2 = sum(p * s * s for p, s in zip(P[t], tree.state[t]))
+        _, m1, mv = weighted_moments(P[t], tree.state[t])
         law_check(ctx, site, "mean", m1, R.ou_mean(root, ka, th_, t * dtm), LAW_RTOL, block,
                   f"E[X({t}dt)] = theta + (x0-theta) e^(-kappa t)", atol=LAW_RTOL * sg)
-        law_check(ctx, site, "variance", m2 - m1 ** 2, R.ou_var(ka, sg, t * dtm), LAW_RTOL, block,
+        law_check(ctx, site, "variance", mv, R.ou_var(ka, sg, t * dtm), LAW_RTOL, block,
                   f"Var[X({t}dt)] = sigma^2 (1-e^(-2 kappa t))/(2 kappa)", atol=LAW_RTOL * sg ** 2)
 
 
@@ -540,11 +563,33 @@ def run(ctx):
              "parameter sets x initial states x dtype; non-trivial = nodes below the root (state depends on an answer)")
     ctx.assume("torch's primitives deliver the distributions they are asked for (requests are checked, generators are not tested)")
     ctx.assume("model-level law statements are evaluated in float64 trees only; float32 runs decide conformance only")
-    run_diffusions(ctx)
-    run_cir_heston(ctx)
-    run_jumps(ctx)
-    run_rbergomi(ctx)
-    run_rest(ctx)
+    ctx.assume("user-supplied sigma_fn is represented by four small functions (constant, spot-, time-dependent, smile)")
+    jobs = []
+    real_run = ctx.run
+    ctx.run = lambda name, block: jobs.append((name, block))       # the run_* functions only enumerate
+    try:
+        run_diffusions(ctx)
+        run_cir_heston(ctx)
+        run_jumps(ctx)
+        run_rbergomi(ctx)
+        run_rest(ctx)
+    finally:
+        ctx.run = real_run
+    if ctx.quick:
+        for name, block in jobs:
+            ctx.run(name, block)
+        return
+    order = []
+    for name, _ in jobs:
+        if name not in order:
+            order.append(name)
+    for name in order:
+        blocks = [b for n_, b in jobs if n_ == name]
+        if name in ("antithetic_perms", "sobol_boxmuller", "derivations"):
+            for b in blocks:
+                ctx.run(name, b)
+        else:
+            ctx.run_parallel(name, blocks)
 
 
 def run_diffusions(ctx):
@@ -708,7 +753,7 @@ def cir_tree(ctx, block):
 
     if via == "instrument":
         site = "CIRRate.simulate"
-    out = call_owned(ctx, site, script, call, block)
+    out = call_owned(ctx, site, script, call, block, mini=_one_leaf(block))
     nn = tree.n_nodes()
     ctx.add("states", nn); ctx.add("transitions", nn - 1); ctx.add("traces_validated_against_impl", L)
     tags = {g for lv in tree.tag[1:] for g in lv}
@@ -733,7 +778,7 @@ def cir_tree(ctx, block):
                       f"v0={v0}, kappa={block['kappa']}, theta={block['theta']}, sigma={block['sigma']}, dt={block['dt']}, {dn}, "
                       f"params as {block.get('params_as', 'float')})", observed=obs, expected=exp, block=leaf_block(block, anc, i))
     else:
-        ctx.info["max_err_over_tol:" + site] = max(ctx.info.get("max_err_over_tol:" + site, 0.0), round(worst, 4))
+        note_margin(ctx, site, worst)
     if leaves is not None or _eff(dn) != torch.float64:
         return
     ka, th, sg, dtm = (mpf(block[nm]) for nm in names)
@@ -744,18 +789,17 @@ def cir_tree(ctx, block):
             law_check(ctx, site, "weights_" + br, s0_, mpf(1), LAW_RTOL, block, "sum of answer weights")
             law_check(ctx, site, "step_mean_" + br, s1_, R.cir_mean(st.v, ka, th, dtm), LAW_RTOL, block,
                       "E[V(t+dt)|V(t)] = theta + (v-theta) e^(-kappa dt)")
-            law_check(ctx, site, "step_variance_" + br, s2_ - s1_ ** 2, R.cir_var(st.v, ka, th, sg, dtm), 10 * LAW_RTOL, block,
+            law_check(ctx, site, "step_variance_" + br, s2_, R.cir_var(st.v, ka, th, sg, dtm), 10 * LAW_RTOL, block,
                       "Var[V(t+dt)|V(t)] (CIR closed form)")
             law_check(ctx, site, "scheme_moments_" + br, st.qe.scheme_var(), st.qe.s2, LAW_RTOL, block, "QE variance matching")
     P = tree.path_prob()
     root = tree.state[0][0].v
     for t in range(1, k + 1):
-        m1 = sum(p * s.v for p, s in zip(P[t], tree.state[t]))
-        m2 = sum(p * s.v ** 2 for p, s in zip(P[t], tree.state[t]))
+        _, m1, mv = weighted_moments(P[t], [s.v for s in tree.state[t]])
         law_check(ctx, site, "mean", m1, R.cir_mean(root, ka, th, t * dtm), LAW_RTOL, block, f"E[V({t}dt)|V(0)] (tower property)")
-        law_check(ctx, site, "variance", m2 - m1 ** 2, R.cir_var(root, ka, th, sg, t * dtm), 10 * t * LAW_RTOL, block,
+        law_check(ctx, site, "variance", mv, R.cir_var(root, ka, th, sg, t * dtm), 10 * t * LAW_RTOL, block,
                   f"Var[V({t}dt)|V(0)] (tower property)")
-    if len(ctx.samples) < 3 and both:
+    if len([s_ for s_ in ctx.samples if s_.get("family") == "cir_tree"]) < 1 and both and k >= 2:
         i = L // 2
         ctx.sample({"family": "cir_tree", "block": block, "leaf": i, "answers_z": Z[i, :k].tolist(), "answers_u": U[i, :k].tolist(),
                     "implementation_path": out[i].tolist(), "branches": [tree.tag[t][int(anc[t][i])] for t in range(1, k + 1)],
@@ -764,7 +808,17 @@ def cir_tree(ctx, block):
 
 @family
 def heston_tree(ctx, block):
-    """block: s0, v0 (None = defaults), kappa, theta, sigma, rho, dt, depth, nz, nl, ns, dtype, via"""
+    """block: s0, v0 (None = defaults), kappa, theta, sigma, rho, dt, depth, nz, nl, ns, dtype, via;
+    or 'starts': [[s0, v0], ...] instead of s0/v0 (each start is run as its own single-start block)"""
+    if "starts" in block:
+        base = {k_: v_ for k_, v_ in block.items() if k_ != "starts"}
+        for s0_, v0_ in block["starts"]:
+            _heston_one(ctx, dict(base, s0=s0_, v0=v0_))
+        return
+    _heston_one(ctx, block)
+
+
+def _heston_one(ctx, block):
     _mp()
     import pfhedge.stochastic as ps
     site = "generate_heston"
@@ -833,7 +887,7 @@ def heston_tree(ctx, block):
 
     if via == "instrument":
         site = "HestonStock.simulate"
-    out = call_owned(ctx, site, script, call, block)
+    out = call_owned(ctx, site, script, call, block, mini=_one_leaf(block))
     nn = tree.n_nodes()
     ctx.add("states", nn); ctx.add("transitions", nn - 1); ctx.add("traces_validated_against_impl", L)
     ctx.tick(nn if leaves is None else k + 1, nontrivial=(nn - 1) if leaves is None else k)
@@ -868,7 +922,7 @@ def heston_tree(ctx, block):
                           f"init=({s0},{v0}), kappa={block['kappa']}, theta={block['theta']}, sigma={block['sigma']}, rho={rho}, dt={block['dt']}, {dn})",
                           observed=obs, expected=exp, block=leaf_block(block, anc, i))
         elif first is None:
-            ctx.info["max_err_over_tol:" + site] = max(ctx.info.get("max_err_over_tol:" + site, 0.0), round(max(worst_v, worst_s), 4))
+            note_margin(ctx, site, max(worst_v, worst_s))
     if leaves is not None or _eff(dn) != torch.float64:
         return
     # ---- model-level law: one-step correlation and growth at every internal node
@@ -890,7 +944,8 @@ def heston_tree(ctx, block):
             law_check(ctx, site, "step_correlation_formula_" + br, corr, R.heston_step_corr(qe, kk), mpf("1e-9"), block,
                       "Corr(dlnS, dV | V) of the tree vs the scheme's closed form", atol=mpf("1e-12"))
             dev = float(abs(corr - mpf(rho)))
-            key = "max|corr-rho| dt<=1/52" if dtf <= 1 / 52 + 1e-12 else "max|corr-rho| dt>1/52 (reported, not asserted)"
+            tagp = f"kappa={block['kappa']}, theta={block['theta']}, sigma={block['sigma']}, rho={rho}, dt={round(dtf, 6)}, depth={k}"
+            key = ("heston max|corr-rho| (asserted <= 0.02): " if dtf <= 1 / 52 + 1e-12 else "heston max|corr-rho| (reported, not asserted): ") + tagp
             ctx.info[key] = max(ctx.info.get(key, 0.0), round(dev, 6))
             if dtf <= 1 / 52 + 1e-12:
                 law_check(ctx, site, "step_correlation_rho", corr, mpf(rho), 0, block,
@@ -913,12 +968,12 @@ def heston_tree(ctx, block):
                           "E[S'/S | V] of the tree vs the scheme's closed form")
             defect = float(abs(g - 1))
             if dtf <= 1 / 250 + 1e-12 and sgf <= 1:
-                ctx.info["max martingale defect per step, dt<=1/250, sigma<=1 (asserted <= 1e-6)"] = max(
-                    ctx.info.get("max martingale defect per step, dt<=1/250, sigma<=1 (asserted <= 1e-6)", 0.0), defect)
+                key = "heston plain-QE martingale defect per step (asserted <= 1e-6): " + tagp
+                ctx.info[key] = max(ctx.info.get(key, 0.0), defect)
                 law_check(ctx, site, "step_martingale_" + br, g, mpf(1), 0, block,
                           f"E[S'/S | V={mp.nstr(st.v, 6)}] within 1e-6 of 1", atol=mpf("1e-6"))
             else:
-                key = f"plain-QE martingale defect per step at dt={round(dtf, 5)} (reported, not asserted)"
+                key = "heston plain-QE martingale defect per step (reported, not asserted): " + tagp
                 ctx.info[key] = max(ctx.info.get(key, 0.0), defect)
     if len([s for s in ctx.samples if s.get("family") == "heston_tree"]) < 1 and k >= 2:
         i = L // 2
@@ -995,13 +1050,10 @@ def run_cir_heston(ctx):
     ctx.alphabet("heston (kappa, theta, sigma, dt) (dyadic: python floats are exact in every dtype)", [list(p) for p in HP])
     for (ka, th, sg, dt) in HP:
         for rho in rhos + [rho_x]:
-            for v0 in V0:
-                s0 = None if v0 is None else 1.25
-                ctx.run("heston_tree", {"s0": s0, "v0": v0, "kappa": ka, "theta": th, "sigma": sg, "rho": rho, "dt": dt, "depth": 1,
-                                        "nz": nz, "nl": nl, "ns": 5, "dtype": "float64", "init": "tuple"})
-            for v0 in ([0.0, 0.3] if q else [0.0, 1e-3, 0.3, th]):
-                ctx.run("heston_tree", {"s0": 0.75, "v0": v0, "kappa": ka, "theta": th, "sigma": sg, "rho": rho, "dt": dt,
-                                        "depth": 2 if q else 3, "nz": 5, "nl": 6, "ns": 3, "dtype": "float64", "init": "tensor"})
+            hb = {"kappa": ka, "theta": th, "sigma": sg, "rho": rho, "dt": dt, "dtype": "float64"}
+            ctx.run("heston_tree", dict(hb, starts=[[None if v0 is None else 1.25, v0] for v0 in V0], depth=1, nz=nz, nl=nl, ns=5, init="tuple"))
+            ctx.run("heston_tree", dict(hb, starts=[[0.75, v0] for v0 in ([0.0, 0.3] if q else [0.0, 1e-3, 0.3, th])],
+                                        depth=2 if q else 3, nz=5, nl=6, ns=3, init="tensor"))
             ctx.run("heston_tree", {"s0": 2.0, "v0": 0.0625, "kappa": ka, "theta": th, "sigma": sg, "rho": rho, "dt": dt, "depth": 2,
                                     "nz": 5, "nl": 4, "ns": 3, "dtype": "float32", "init": "tuple"})
     for rho in (-0.7, 0.7):
@@ -1091,7 +1143,7 @@ def merton_tree(ctx, block):
 
     if via == "instrument":
         site = "MertonJumpStock.simulate"
-    out = call_owned(ctx, site, script, call, block)
+    out = call_owned(ctx, site, script, call, block, mini=_one_leaf(block))
     nn = tree.n_nodes()
     ctx.add("states", nn); ctx.add("transitions", nn - 1); ctx.add("traces_validated_against_impl", L)
     ctx.tick(nn if leaves is None else k + 1, nontrivial=(nn - 1) if leaves is None else k)
@@ -1118,7 +1170,7 @@ def merton_tree(ctx, block):
                       f"sigma={sigma}, lambda={lam}, jump_mean={jm}, jump_std={js}, dt={dt}, {dn})", observed=obs, expected=exp,
                       block=leaf_block(block, anc, i))
     else:
-        ctx.info["max_err_over_tol:" + site] = max(ctx.info.get("max_err_over_tol:" + site, 0.0), round(worst, 4))
+        note_margin(ctx, site, worst)
     if leaves is not None or _eff(dn) != torch.float64 or lam == 0:
         return
     # ---- law, conditional on the number of jumps c (tree), closed over c by mp.nsum (Poisson)
@@ -1246,7 +1298,7 @@ def kou_tree(ctx, block):
 
     if via == "instrument":
         site = "KouJumpStock.simulate"
-    out = call_owned(ctx, site, script, call, block)
+    out = call_owned(ctx, site, script, call, block, mini=_one_leaf(block))
     nn = tree.n_nodes()
     ctx.add("states", nn); ctx.add("transitions", nn - 1); ctx.add("traces_validated_against_impl", L)
     ctx.tick(nn if leaves is None else k + 1, nontrivial=(nn - 1) if leaves is None else k)
@@ -1273,7 +1325,7 @@ def kou_tree(ctx, block):
                       f"sigma={sigma}, lambda={lam}, up={up}, down={down}, p={p}, dt={dt}, {dn})", observed=obs, expected=exp,
                       block=leaf_block(block, anc, i))
     else:
-        ctx.info["max_err_over_tol:" + site] = max(ctx.info.get("max_err_over_tol:" + site, 0.0), round(worst, 4))
+        note_margin(ctx, site, worst)
     if leaves is not None or _eff(dn) != torch.float64 or lam == 0:
         return
     mum, sgm, dtm, lamm, pm = mpf(mu), mpf(sigma), mpf(dt), mpf(lam), mpf(p)
@@ -1419,7 +1471,7 @@ def rbergomi_impulse(ctx, block):
 
     if via == "instrument":
         site = "RoughBergomiStock.simulate"
-    out = call_owned(ctx, site, script, call, block)
+    out = call_owned(ctx, site, script, call, block, mini=_one_leaf(block))
     ctx.add("states", N * T); ctx.add("transitions", N * T1); ctx.add("traces_validated_against_impl", N)
     ctx.tick(N * T, nontrivial=(N - 1) * T1)
     if out is None:
@@ -1604,12 +1656,8 @@ def run_rbergomi(ctx):
     blocks.append({"n_steps": 6, "alpha": -0.4, "rho": -0.9, "eta": 1.9, "xi": 0.04, "s0": None, "v0": None, "dt": 1 / 250, "dtype": None})
     blocks.append({"n_steps": 5, "alpha": -0.25, "rho": 0.5, "eta": 1.5, "xi": 0.0625, "s0": 1.25, "v0": 0.0625, "dt": 1 / 4,
                    "dtype": "float64", "via": "instrument"})
-    heavy = [b for b in blocks if b["n_steps"] > 60]
     for b in blocks:
-        if b["n_steps"] <= 60:
-            ctx.run("rbergomi_impulse", b)
-    if heavy:
-        ctx.run_parallel("rbergomi_impulse", heavy, workers=4)
+        ctx.run("rbergomi_impulse", b)
 
 
 # ----------------------------------------------------------------------------
@@ -1664,7 +1712,7 @@ def localvol_tree(ctx, block):
 
     if via == "instrument":
         site = "LocalVolatilityStock.simulate"
-    out = call_owned(ctx, site, script, call, block)
+    out = call_owned(ctx, site, script, call, block, mini=_one_leaf(block))
     nn = tree.n_nodes()
     ctx.add("states", nn); ctx.add("transitions", nn - 1); ctx.add("traces_validated_against_impl", L)
     ctx.tick(nn if leaves is None else k + 1, nontrivial=(nn - 1) if leaves is None else k)
@@ -1695,7 +1743,7 @@ def localvol_tree(ctx, block):
                       f"(|diff|={abs(obs - exp):.3e} > tol {tol:.1e}; sigma_fn={block['sigma_fn']}, s0={s0}, dt={dt}, {dn})",
                       observed=obs, expected=exp, block=leaf_block(block, anc, i))
     else:
-        ctx.info["max_err_over_tol:" + site] = max(ctx.info.get("max_err_over_tol:" + site, 0.0), round(worst, 4))
+        note_margin(ctx, site, worst)
     if first is None or used is not tree:
         # volatility output: sigma(t_i, S_i) at every node including the leaves
         tv = lambda t, j, s: 16 * eps * (k + 2) * (1 + t) * (1 + abs(float(s))) * 0.5
@@ -1712,7 +1760,7 @@ def localvol_tree(ctx, block):
             s0_, s1_, s2_ = node_moments(tree, t, j, lambda x: x)
             sg = f_m(mpf(t) * dtm, st)
             law_check(ctx, site, "step_martingale", s1_, st, LAW_RTOL, block, "E[S(t+dt)|S(t)] = S(t)")
-            law_check(ctx, site, "step_variance", s2_ - s1_ ** 2, st ** 2 * sg ** 2 * dtm, LAW_RTOL, block, "Var[S(t+dt)|S(t)] = S^2 sigma^2 dt")
+            law_check(ctx, site, "step_variance", s2_, st ** 2 * sg ** 2 * dtm, LAW_RTOL, block, "Var[S(t+dt)|S(t)] = S^2 sigma^2 dt")
     P = tree.path_prob()
     for t in range(1, k + 1):
         m1 = sum(p * s for p, s in zip(P[t], tree.state[t]))
